@@ -42,7 +42,10 @@ def gen_tree(rng, tickers, fi=False, shape=None, allow_coupon=False):
         decl = rng.choice(["obj", "obj", "lazy", "str"])
         if decl == "str":
             cls, mult = "Security", 1.0
-        return {"k": "X", "name": t, "cls": cls, "mult": mult, "decl": decl}
+        out = {"k": "X", "name": t, "cls": cls, "mult": mult, "decl": decl}
+        if cls == "CouponPayingSecurity" and decl == "obj" and rng.random() < 0.25:
+            out["fi_flag"] = False  # built with fixed_income=False: carry as ever, notional by market value
+        return out
 
     scls = "FixedIncomeStrategy" if fi else None
 
@@ -86,7 +89,7 @@ def model_spec(spec):
     """what the reference model needs (lazy / undeclared children are created on first trade)."""
     if spec["k"] == "S":
         return {"k": "S", "name": spec["name"], "fi": spec.get("fi", False), "children": [model_spec(c) for c in spec.get("children", []) if c["k"] == "S" or c.get("decl") == "obj"]}
-    return {"k": "X", "name": spec["name"], "cls": spec["cls"], "mult": spec["mult"]}
+    return {"k": "X", "name": spec["name"], "cls": spec["cls"], "mult": spec["mult"], "fi_flag": spec.get("fi_flag", True)}
 
 
 def build(bt, spec, algos_for=None):
@@ -95,6 +98,9 @@ def build(bt, spec, algos_for=None):
 
     def mk_sec(s):
         cls = getattr(core, s["cls"])
+        if "fi_flag" in s:
+            # the documented constructor flag of the coupon-paying classes: notional = market value instead of par
+            return cls(s["name"], multiplier=s["mult"], fixed_income=bool(s["fi_flag"]), lazy_add=(s["decl"] == "lazy"))
         return cls(s["name"], multiplier=s["mult"], lazy_add=(s["decl"] == "lazy"))
 
     def split(s, p):
